@@ -34,6 +34,7 @@ class Shared:
         self.entered_counts = {}
         self.lines_covered = set()
         self.concrete_dims = None
+        self.deadline = None
         self.dim_scheme = "consecutive"
         self.used_dims = set()
         self.all_cands = {}
@@ -93,6 +94,10 @@ class TaskResult:
         )
 
 
+class NeedDiscovery(BaseException):
+    """a cut loop was met in the verify phase before the discovery pass ran"""
+
+
 def explore(shared: Shared, harness, result: TaskResult, allow_raise=None, both=False):
     """Enumerate all paths of `harness(E)`.  A path that ends in an uncaught
     Python exception is recorded under result.raised (whether that is
@@ -100,6 +105,9 @@ def explore(shared: Shared, harness, result: TaskResult, allow_raise=None, both=
     work = [[]]
     npaths = 0
     while work:
+        if getattr(shared, "deadline", None) and time.time() > shared.deadline:
+            result.notes.append("exploration stopped at its time budget")
+            break
         prefix = work.pop()
         npaths += 1
         if npaths > MAX_PATHS:
@@ -167,11 +175,9 @@ def run_task(name, harness, root=None, setup=None, allow_raise=None, both=False,
     if setup:
         setup(shared)
     res = TaskResult(name)
-    # phase A: discovery of loop write sets (only when a cut loop is met)
-    shared.phase = "discover"
-    tmp = TaskResult(name)
-    explore(shared, harness, tmp)
-    has_loops = bool(shared.loops_seen)
+    # phase A: discovery of loop write sets - run lazily, only once a cut loop is actually met
+    # (the verify pass raises NeedDiscovery at the first cut loop when no discovery has been done)
+    shared.discovered = False
     shared.phase = "verify"
     rounds = 0
     while True:
@@ -180,7 +186,15 @@ def run_task(name, harness, root=None, setup=None, allow_raise=None, both=False,
         res = TaskResult(name)
         shared.loader.entered = {}
         shared.lib.used = set()
-        explore(shared, harness, res, allow_raise=allow_raise, both=both)
+        try:
+            explore(shared, harness, res, allow_raise=allow_raise, both=both)
+        except NeedDiscovery:
+            shared.phase = "discover"
+            explore(shared, harness, TaskResult(name))
+            shared.discovered = True
+            shared.phase = "verify"
+            rounds -= 1
+            continue
         import os as _os
         if _os.environ.get("PYVC_DEBUG"):
             print("houdini round", rounds, {k: sorted(v) for k, v in shared.houdini_dead.items()}, flush=True)
@@ -203,12 +217,27 @@ def run_task(name, harness, root=None, setup=None, allow_raise=None, both=False,
         # divisibility relations between sizes occur, e.g. "sample count is a multiple of the batch size")
         confirmed = {}
         passed_all = {o["name"]: True for o in cand}
+        unroll0 = T.UNROLL_MAX
+        T.UNROLL_MAX = 40  # concrete sizes: unroll every reduction exactly (quantifier-free queries)
+        only_undecided = all(o["verdict"] == "undecided" for o in cand)
+        t_conf = time.time()
         for scheme in ("consecutive", "powers"):
+            if only_undecided and scheme == "powers":
+                break  # undecided obligations get one (budgeted) concrete attempt; the native replay decides the rest
+            shared.deadline = time.time() + (240 if only_undecided else 600)
             shared.concrete_dims = {}
             shared.dim_scheme = scheme
             shared.houdini_dead = {}
             res2 = TaskResult(name)
-            explore(shared, harness, res2, allow_raise=allow_raise)
+            try:
+                explore(shared, harness, res2, allow_raise=allow_raise)
+            except NeedDiscovery:
+                shared.phase = "discover"
+                explore(shared, harness, TaskResult(name))
+                shared.discovered = True
+                shared.phase = "verify"
+                res2 = TaskResult(name)
+                explore(shared, harness, res2, allow_raise=allow_raise)
             for o in cand:
                 o2 = res2.obligations.get(o["name"])
                 if o2 is not None and o2["verdict"] == "failed" and o["name"] not in confirmed:
@@ -230,6 +259,8 @@ def run_task(name, harness, root=None, setup=None, allow_raise=None, both=False,
                 o["verdict"] = "undecided"
                 o["detail"] = "[not confirmed on concrete sizes: symbolic-sum abstraction too weak] %s" % (o.get("detail"),)
         shared.concrete_dims = None
+        shared.deadline = None
+        T.UNROLL_MAX = unroll0
     res.functions = dict(shared.loader.entered)
     res.lib_used = set(shared.lib.used)
     res.loops = sorted(shared.loops_seen)
